@@ -506,6 +506,59 @@ class Rig:
             await srv.shutdown()
         logging.getLogger("asimap").removeHandler(self._logh)
 
+    async def kill(self):
+        """What a kill of the user process leaves behind, approximated in process:
+        nothing of shutdown() runs -- no final commit of any mailbox, no
+        commit of the connection; tasks are cancelled, the SQLite connection is
+        closed as it is (uncommitted work is rolled back).  Only used at
+        quiescent points (no command in progress)."""
+        srv = self.server
+        self.server = None
+        if srv is None:
+            return
+        tasks = []
+        if getattr(srv, "management_task", None) and not srv.management_task.done():
+            tasks.append(srv.management_task)
+        for mb in list(srv.active_mailboxes.values()):
+            mt = getattr(mb, "mgmt_task", None)
+            if mt is not None and not mt.done():
+                tasks.append(mt)
+        for c in list(srv.clients.values()):
+            try:
+                w_ = getattr(c, "writer", None)
+                if w_ is not None:
+                    w_.close()
+            except Exception:
+                pass
+        tasks += [t_ for t_ in srv.clients.keys() if hasattr(t_, "cancel") and not t_.done()]
+        for t_ in tasks:
+            t_.cancel()
+        for t_ in tasks:
+            try:
+                await t_
+            except BaseException:
+                pass
+        try:
+            await srv.db.conn.rollback()
+        except Exception:
+            pass
+        await srv.db.close()
+        try:
+            srv.mailbox.close()
+        except Exception:
+            pass
+        logging.getLogger("asimap").removeHandler(self._logh)
+
+    async def kill_restart(self):
+        for s in self.sessions:
+            s.pump()
+        await self.kill()
+        self.sessions = []
+        self.pop3_sessions = []
+        self.restarts += 1
+        self.counts["kill_restarts"] += 1
+        await self.start()
+
     async def restart(self):
         """Orderly shutdown and start on the same directory."""
         for s in self.sessions:
